@@ -64,6 +64,16 @@ def gen_script(rng, st, projs):
                 arg = rng.choice(names[26:])
             if appids and rng.random() < 0.3:
                 arg = rng.choice(appids)
+            # an app id that several connections have (two windows of one program): the first of them is meant
+            by_app = {}
+            for e in st['entries']:
+                a = streams.app_id_of(e['rec'])
+                if a and ' ' not in a and a.lower() not in [x.lower() for x in names]:
+                    by_app.setdefault(a.lower(), set()).add(e['ci'])
+            shared = sorted(a for a, cs in by_app.items() if len(cs) > 1)
+            if shared and rng.random() < 0.5:
+                arg = rng.choice(shared)
+                pos = rng.randint(n // 2, n)
             cmd = (rng.choice(['connection', 'c', 'conn']) + ' ' + arg, 'connection', arg)
         else:
             cmd = (rng.choice(['list', 'list ~ 2', 'list ' + names[0] + ':', 'filter', 'connection', 'help', 'matcher wl_surface']), 'neutral', None)
@@ -85,7 +95,9 @@ def run_one(ctx, rng, cands, spec):
     many = rng.random() < 0.06
     if many:
         k = rng.randint(27, 31)          # connection names past Z (AA, AB, ...)
-    st = streams.build(rng, cands, k=k, n_each=(3, 9) if many else tuple(spec['n_each']), tagged=True, opts={'titles': rng.choice([0.02, 0.1])})
+    st = streams.build(rng, cands, k=k, n_each=(3, 9) if many else tuple(spec['n_each']), tagged=True,
+                       # (sometimes several windows of one or two programs: connections that share an app id)
+                       opts={'titles': rng.choice([0.02, 0.1, 0.25])} if rng.random() < 0.8 else {'titles': 0.3, 'app_pool': ['org.example.Term', 'foot', 'Foot']})
     projs = [c05.project(e, st['names'][e['ci']], st['dialect']) for e in st['entries']]
     hooks, f_text, f_ast = gen_script(rng, st, projs)
     lines = [e['line'] for e in st['entries']]
